@@ -182,11 +182,10 @@ Fixpoint run_labels (s : state) (ls : list label) : option state :=
   end.
 
 (** Deterministic schedulers used by the correspondence entry: fire the first enabled label of
-    a fixed priority list with the largest quantum; [down]: consumers first, else producers
-    first. [None] in the first component: stuck; fuel exhausted is reported separately. *)
-Definition prio (down : bool) (s : state) : list label :=
+    a fixed priority list with transfer quantum [q] ([S C]: as much as fits; [1]: unit by unit,
+    the slowest producer); [down]: consumers first, else producers first. [None] in the first component: stuck; fuel exhausted is reported separately. *)
+Definition prio (q : nat) (down : bool) (s : state) : list label :=
   let n := length (stages s) in
-  let q := S C in
   let st := map (fun i => LStage i q) (seq 0 n) in
   LSpawn :: (if down then rev st else st) ++ [LWait].
 
@@ -198,12 +197,12 @@ Fixpoint first_enabled (s : state) (ls : list label) : option state :=
 
 Inductive outcome := OFinal (s : state) | OStuck (s : state) | OFuel (s : state).
 
-Fixpoint run_sched (down : bool) (fuel : nat) (s : state) : outcome :=
+Fixpoint run_sched (q : nat) (down : bool) (fuel : nat) (s : state) : outcome :=
   if finalb s then OFinal s else
   match fuel with
   | O => OFuel s
-  | S f => match first_enabled s (prio down s) with
-           | Some s' => run_sched down f s'
+  | S f => match first_enabled s (prio q down s) with
+           | Some s' => run_sched q down f s'
            | None => OStuck s
            end
   end.
